@@ -117,6 +117,13 @@ def invocations(pf_path, pf2_path, ck_path, wd, rng):
         Colander(plotfile=f(pf_path), limit_level=None, output=out, variables=["temp", "density"]).strain()
     inv.append(("colander", colander, [pf_path], "explicit-only"))
 
+    def colander_rerun(f, out):
+        # a sequence: every field kept (in plotfile order), then a subset strained into the SAME output path
+        from amr_kitchen.colander.colander import Colander
+        Colander(plotfile=f(pf_path), limit_level=None, output=out, variables=["all"]).strain()
+        Colander(plotfile=f(pf_path), limit_level=0, output=out, variables=["pressure"]).strain()
+    inv.append(("colander-rerun", colander_rerun, [pf_path], "explicit-only"))
+
     def combine(f, out):
         from amr_kitchen import PlotfileCooker
         from amr_kitchen.combine.combine import combine as cb
@@ -232,6 +239,22 @@ def run_frame_scenario(p, wd):
                 if tree_digest(i) != digests[i] or any(inside(q, i) for q in changed + removed):
                     fails.append({"what": "tool created, modified or deleted something inside its input", "call": call,
                                   "detail": str([os.path.relpath(q, work) for q in changed + removed if inside(q, i)][:4])})
+            # nothing the run produced may BE a file of an input under another name (hard link / symbolic link): whatever is
+            # later written through the output would be written into the input
+            input_inodes = {}
+            for i in inputs:
+                for dp, dn, fn in os.walk(i):
+                    for f_ in fn:
+                        st = os.stat(os.path.join(dp, f_))
+                        input_inodes[(st.st_dev, st.st_ino)] = os.path.join(dp, f_)
+            for q in changed:
+                if any(inside(q, i) for i in inputs) or not os.path.exists(q) or os.path.isdir(q):
+                    continue
+                st = os.stat(q)
+                if (st.st_dev, st.st_ino) in input_inodes or os.path.islink(q):
+                    fails.append({"what": "a file written by the tool is a link to a file of its input (writes to it reach the input)", "call": call,
+                                  "detail": f"{os.path.relpath(q, work)} -> {os.path.relpath(input_inodes.get((st.st_dev, st.st_ino), '?'), work)}"})
+                    break
             # audit of the write-class calls: nothing inside an input may even be OPENED for writing
             for site in instr.sites:
                 if site.startswith("open "):
